@@ -597,7 +597,7 @@ func (r *recorder) first() (types.Status, int, []string) {
 
 func props() []rp.Prop {
 	return []rp.Prop{
-		rp.P[dCase]{Name: "civil", Checks: ev.Pick(60000, 8000000) / ev.Shards(), Gen: genCase, Sweep: sweep, Check: checkCase},
+		rp.P[dCase]{Name: "civil", Checks: ev.Pick(400000, 16000000) / ev.Shards(), Gen: genCase, Sweep: sweep, Check: checkCase},
 	}
 }
 
